@@ -44,6 +44,33 @@ impl Fmt {
     }
 }
 
+thread_local! {
+    static LEX_SLOT: std::cell::RefCell<Option<LexFormat>> = const { std::cell::RefCell::new(None) };
+    static LEX_SLOT_FMT: std::cell::Cell<Option<Fmt>> = const { std::cell::Cell::new(None) };
+}
+
+/// the vocabulary of the format that currently sits in the per-thread slot
+pub fn last_recreated() -> Option<Fmt> {
+    LEX_SLOT_FMT.with(|c| c.get())
+}
+
+/// Run `body` with a lexical format that was *just created* by the public factory of `f` and stored
+/// into one per-thread slot, i.e. at the address where the previously created format (usually of
+/// another vocabulary) lived a moment ago.  The shipped formats are values a user may create, move
+/// and drop; nothing may depend on where one lives.
+pub fn with_recreated_lex<R>(f: Fmt, body: impl FnOnce(&LexFormat) -> R) -> R {
+    LEX_SLOT_FMT.with(|c| c.set(Some(f)));
+    LEX_SLOT.with(|slot| {
+        *slot.borrow_mut() = Some(match f {
+            Fmt::Ascii => lf::create_format_ascii(),
+            Fmt::Latex => lf::create_format_latex(),
+            Fmt::Han => lf::create_format_han(),
+        });
+        let b = slot.borrow();
+        body(b.as_ref().unwrap())
+    })
+}
+
 /// Every keyword string of an enum format instance (read from the instance itself).
 pub fn keywords(f: &'static EnumFormat<&'static str>) -> Vec<&'static str> {
     let mut v = vec![
